@@ -3,7 +3,9 @@
 (* program is first run alone (Seq), then the same operations run on many   *)
 (* goroutines on their own values (Par, ordered per goroutine by a sequence *)
 (* number); the race detector's reports of the run are Race events.         *)
-(* A program = one trace (Start resets).                                    *)
+(* A program = one trace (Start resets).  "Fresh" programs run in a process *)
+(* of their own with the goroutines first and the reference afterwards, so  *)
+(* that first-use initialisation inside the library happens concurrently.   *)
 EXTENDS Integers, Sequences, FiniteSets, TLC, Json, IOUtils
 
 VARIABLES l, dead, nviol, seqres, lastseq
@@ -19,7 +21,8 @@ Bad(e) ==
           ELSE IF e.res # seqres[e.op] THEN {"C13.differs_from_sequential"} ELSE {})
          \cup (IF e.g \in DOMAIN lastseq /\ e.i # lastseq[e.g] + 1 THEN {"C13.driver.order"} ELSE {})
     [] e.ev = "Race" -> {"C13.data_race"}
-    [] e.ev = "End" -> IF e.races # 0 THEN {"C13.data_race"} ELSE {}
+    [] e.ev = "End" -> (IF e.races # 0 THEN {"C13.data_race"} ELSE {})
+                       \cup (IF e.crash THEN {"C13.process_died"} ELSE {})   \* fatal error: concurrent map access, ...
 
 Reset == Trace[l].ev = "Start" /\ dead' = FALSE /\ seqres' = Empty /\ lastseq' = Empty /\ UNCHANGED nviol
 Live ==
